@@ -368,6 +368,7 @@ def do_check(run: Run, args):
                                     "role": "bounded stand-in" if rep.status != "ok" else "cross-check of proved clauses"})
 
     # ---- syntactic frame scans over the whole package (a frame failure has no model: reported no-failing-input-found)
+    advisory_failed = []
     for sc in (mod.scans(facts) if hasattr(mod, "scans") else []):
         total_obl += 1
         row = {"id": f"scan:{sc['name']}", "kind": "frame-scan", "strength": "P", "vcs": sc.get("sites", 0), "backend": ["ast scan"], "seconds": 0.0,
@@ -375,14 +376,31 @@ def do_check(run: Run, args):
         run.clause_rows.append(row)
         if sc["ok"]:
             discharged += 1
+        elif sc.get("advisory"):
+            # a call-site scan compares the SHAPE of an external call's arguments with the shape on the pinned tree: an equivalent rewrite also changes the
+            # shape, so by itself a mismatch is "undecided"; it is reported as the failed obligation only if the bounded run finds a failing input too
+            advisory_failed.append(sc)
+            row["result"] = "undecided"
         else:
             path = write_replay(run, "scan", sc["name"], {"kind": "frame-scan", "clause_text": sc.get("text", ""), "offending_sites": sc.get("detail"),
                                                           "failing_input_found": False,
                                                           "why": "a write outside the frame the property allows; a frame failure has no counter-model"})
             run.violations.append({"fn": "scan", "clause": sc["name"], "replay": path, "confirmed": False, "why": str(sc.get("detail"))[:300]})
     # ---- bounded / lifted native scripts declared by the property module
+    n_before = len(run.violations)
     for b in (mod.bounded(run.tier, run.seed) if hasattr(mod, "bounded") else []):
         run_bounded(run, ctx, b, known)
+    bounded_found = [v for v in run.violations[n_before:] if v.get("confirmed")]
+    for sc in advisory_failed:
+        if bounded_found:
+            path = write_replay(run, "scan", sc["name"], {"kind": "call-site-scan", "clause_text": sc.get("text", ""), "offending_sites": sc.get("detail"),
+                                                          "failing_input_found": True, "failing_input_in": bounded_found[0]["replay"],
+                                                          "why": "the arguments handed to an external call differ from the stated shape, and the bounded run of the real code fails"})
+            run.violations.append({"fn": "scan", "clause": sc["name"], "replay": path, "confirmed": True, "why": str(sc.get("detail"))[:300]})
+        else:
+            print(f"NOTE property={run.pid} scan:{sc['name']} is undecided: the call is no longer written as on the pinned tree and the bounded run found no failing input -- not a violation")
+            run.notes.append(f"scan:{sc['name']} no longer matches the call as written on the pinned tree ({str(sc.get('detail'))[:200]}); the bounded run of the real "
+                             f"code found no failing input, so this is not reported as a violation (undecided: an equivalent rewrite changes the shape too)")
 
     for a in getattr(mod, "ASSUMPTIONS", []):
         run.assumptions.append(a)
